@@ -276,6 +276,7 @@ def guardTable : List ((String × String × Nat) × GuardClass × String) := [
   (("pkg/object/pipeline/pipeline.go", "Pipeline.reload", 3), .allow, "re-runs filters.NewSpec / resilience.NewPolicy / kind lookup that pipeline.Spec.Validate already ran on the same document"),
   (("pkg/object/globalfilter/globalfilter.go", "GlobalFilter.Handle", 1), .allow, "the handler is always a *pipeline.Pipeline (the only context.Handler implementation the mux mapper hands to httpserver.mux); GlobalFilter is instantiated and served by harness gf"),
   (("pkg/object/globalfilter/globalfilter.go", "GlobalFilter.reload", 2), .guard, "globalFilterInitOK (CreateAndUpdate*PipelineForSpec fails only when supervisor.NewSpec rejects the re-marshalled part that globalfilter.Spec.Validate accepted; panics of Pipeline.Init/Inherit of an instantiated part are pipelineInitOK of that part; harness gf)"),
+  (("pkg/object/httpserver/mux.go", "muxInstance.serveHTTP", 1), .allow, "deliberate, recovered abort of ONE response, not a crash: panic(http.ErrAbortHandler) in the deferred write-out, only when io.Copy of the response body returned an error other than http.ErrBodyNotAllowed (payload source or client connection failed); net/http recovers it and closes the connection (as httputil.ReverseProxy does). Harness http: never raised with a non-failing payload reader (that would be reported as a crash), raised and accepted as an aborted response when the handler's payload reader fails (X-Fail-Body)"),
   (("pkg/object/httpserver/spec.go", "Header.initHeaderRoute", 1), .guard, "httpServerInitOK (regexp.MustCompile(h.Regexp) guarded by format=regexp on Header.regexp: valid_implies_init_ok_HTTPServer; mux built and served by harness http)"),
   (("pkg/object/mqttproxy/broker.go", "newBroker", 1), .guard, "mqttProxyInitOK (getPipelineMap error -> panic; the repaired mqttproxy.Spec.Validate runs the same getPipelineMap: valid_implies_init_ok_MQTTProxy; broker started and driven by harness mqtt)"),
   (("pkg/object/mqttproxy/mqttproxy.go", "MQTTProxy.Init", 1), .allow, "environment, not configuration: newBroker returns nil only when the TCP/TLS listener cannot be opened (port in use, bad certificate material); harness mqtt uses port 0 without TLS"),
